@@ -406,3 +406,37 @@ def typed_default_area(chk, db, prefixes, rule="TYPEDDEF"):
         for call, _ty, msg in r[:2]:
             chk.violation(rule, construct, "operand-converted", "%s: %s" % (astx.loc(f, call), msg), {"where": astx.loc(f)})
     return n
+
+
+# ---- CHARCAST ------------------------------------------------------------------------------------------------------------------
+NARROW_CHAR = re.compile(r"^(const\s+)?(unsigned char|signed char|char|char8_t|(etl::)?u?int8_t|unsigned short|short|(etl::)?u?int16_t)$")
+ONE_BYTE_GUARD = re.compile(r"is_same(_v)?\s*<[^<>]*\b(char|char8_t|unsigned char|signed char)\b[^<>]*>|sizeof\s*\(\s*(char_type|CharT|CharType|Char)\s*\)\s*==\s*1")
+
+
+def char_cast_area(chk, db, files, rule="CHARCAST"):
+    """In the generic character traits a character of the traits' own type is converted to a fixed narrow type only where the
+    character type is known to be that narrow (`if constexpr (is_same_v<char_type, char>)`): for wchar_t / char16_t / char32_t
+    the conversion drops the high bits, so different characters compare equal and order wrongly."""
+    n = 0
+    for f in db.funcs:
+        if f.get("body") is None or f["file"] not in files:
+            continue
+        cps = set(p["n"] for p in f["params"] if re.search(r"\b(char_type|CharT|CharType|Char)\b", p.get("ty") or ""))
+        if not cps:
+            continue
+
+        def pred(x):
+            return x.get("k") in ("cast", "construct") and NARROW_CHAR.match((x.get("ty") or "").strip()) is not None and any(
+                y.get("k") == "ref" and y.get("d") == "param" and y.get("n") in cps
+                for i in ([x.get("e")] if x.get("k") == "cast" else list(x.get("a") or [])) if i is not None for y in astx.walk_expr(i))
+        for x, conds in guarded_nodes(f, pred):
+            n += 1
+            label = "%s :: `%s`" % (astx.sig(f), astx.show(x, 50))
+            chk.instance(rule)
+            ok = any(ONE_BYTE_GUARD.search(c) and not c.startswith("!(") for c in conds)
+            chk.obligation(rule, label, ok)
+            if not ok:
+                chk.violation(rule, label, "character-narrowed", "%s: `%s` converts a character of the traits' own type to `%s` under `%s`; for a "
+                              "wider character type the high bits are dropped, so distinct characters compare equal / order wrongly" % (
+                                  astx.loc(f, x), astx.show(x, 50), x.get("ty"), " && ".join(conds) or "no condition"), {"where": astx.loc(f)})
+    return n
